@@ -168,6 +168,8 @@ def d4_sign(ctx):
     except Undecided as e:
         raise AnalysisError(f"fshift: phase expression not evaluable: {e}")
     want = Poly.sym("J") * Poly.sym("ANGLE") * Poly.sym("s")
+    if p != want and "ANGLE" not in p.canon():
+        return _analytic_ramp(ctx, repo, fi, du, exps[0])
     ctx.check(p == want, fi, exps[0], f"exponent = {p}", "positive s delays the signal (phase = +angle of a one-sample delay times s)",
               f"phase exponent normalises to {p}, expected {want}: the shift direction or scale is wrong", key="phase")
     ang = [c for c in find(exps[0], ast.Call) if call_name(c) == "angle"]
@@ -204,8 +206,110 @@ def d4_sign(ctx):
                   f"reported shift normalises to {p}: sign or centre of the correlation peak is wrong", key="reported")
 
 
+class _Rat:
+    """num/den of polynomials: enough to compare analytic phase ramps exactly (a/b == c/d iff a*d == b*c)."""
+
+    def __init__(self, num, den=None):
+        self.n, self.d = num, den if den is not None else Poly.const(1)
+
+    def __add__(self, o):
+        return _Rat(self.n * o.d + o.n * self.d, self.d * o.d)
+
+    def __sub__(self, o):
+        return _Rat(self.n * o.d - o.n * self.d, self.d * o.d)
+
+    def __mul__(self, o):
+        return _Rat(self.n * o.n, self.d * o.d)
+
+    def __truediv__(self, o):
+        return _Rat(self.n * o.d, self.d * o.n)
+
+    def __neg__(self):
+        return _Rat(-self.n, self.d)
+
+    def same(self, o):
+        return self.n * o.d == o.n * self.d
+
+    def __repr__(self):
+        return f"({self.n})/({self.d})"
+
+
+def _ramp_eval(e, r, du, at, depth=0):
+    """Evaluate an analytic phase expression to a rational function of N (= ns), K (bin index), PI, J, s, with ns // 2 = (N - r)/2."""
+    N, K = Poly.sym("N"), Poly.sym("K")
+    if depth > 12:
+        raise Undecided("expansion too deep")
+    rec = lambda x: _ramp_eval(x, r, du, at, depth + 1)  # noqa: E731
+    if isinstance(e, ast.Constant):
+        if isinstance(e.value, complex):
+            return _Rat(Poly.sym("J") * Poly.const(e.value.imag))
+        if isinstance(e.value, (int, float)):
+            return _Rat(Poly.const(e.value))
+    if isinstance(e, ast.Name):
+        if e.id == "ns":
+            return _Rat(N)
+        if e.id == "s":
+            return _Rat(Poly.sym("s"))
+        if e.id == "pi":
+            return _Rat(Poly.sym("PI"))
+        v = expand_name(du, e, at)
+        if v is not e:
+            return rec(v)
+        raise Undecided(f"name {e.id}")
+    if isinstance(e, ast.Attribute) and e.attr == "pi":
+        return _Rat(Poly.sym("PI"))
+    if isinstance(e, ast.UnaryOp) and isinstance(e.op, ast.USub):
+        return -rec(e.operand)
+    if isinstance(e, ast.BinOp):
+        if isinstance(e.op, ast.FloorDiv) and isinstance(e.left, ast.Name) and e.left.id == "ns" and isinstance(e.right, ast.Constant) and e.right.value == 2:
+            return _Rat(N - Poly.const(r), Poly.const(2))
+        a, b = rec(e.left), rec(e.right)
+        if isinstance(e.op, ast.Add):
+            return a + b
+        if isinstance(e.op, ast.Sub):
+            return a - b
+        if isinstance(e.op, ast.Mult):
+            return a * b
+        if isinstance(e.op, ast.Div):
+            return a / b
+    if isinstance(e, ast.Call):
+        nm = call_name(e)
+        if nm in ("reshape", "astype") and isinstance(e.func, ast.Attribute):
+            return rec(e.func.value)
+        if nm == "arange" and len(e.args) == 1:
+            n = rec(e.args[0])
+            if not n.same(_Rat(N - Poly.const(r), Poly.const(2)) + _Rat(Poly.const(1))):
+                raise Undecided(f"arange over {n} bins is not the rfft length ns//2 + 1")
+            return _Rat(K)
+        if nm == "linspace" and len(e.args) >= 3:
+            a, b, n = rec(e.args[0]), rec(e.args[1]), rec(e.args[2])
+            if not n.same(_Rat(N - Poly.const(r), Poly.const(2)) + _Rat(Poly.const(1))):
+                raise Undecided(f"linspace over {n} points is not the rfft length ns//2 + 1")
+            return a + (b - a) * _Rat(K) / (n - _Rat(Poly.const(1)))
+        if nm == "rfftfreq" and e.args:
+            return _Rat(K) / rec(e.args[0])
+    raise Undecided(f"cannot evaluate {src(e)[:60]}")
+
+
+def _analytic_ramp(ctx, repo, fi, du, exp_call):
+    """The phase ramp is written analytically: bin k of an rfft of length ns must get phase -2*pi*k/ns, for both parities of ns."""
+    verdicts = {}
+    want = _Rat(Poly.sym("J") * Poly.const(-2) * Poly.sym("PI") * Poly.sym("K") * Poly.sym("s"), Poly.sym("N"))
+    for par, r in (("even", 0), ("odd", 1)):
+        try:
+            got = _ramp_eval(exp_call.args[0], r, du, exp_call)
+        except Undecided as e:
+            raise AnalysisError(f"fshift: analytic phase expression not evaluable: {e}")
+        verdicts[par] = (got.same(want), got)
+    bad = [k for k, (ok, _) in verdicts.items() if not ok]
+    ctx.check(not bad, fi, exp_call, f"analytic phase: even ns -> {verdicts['even'][1]} ; odd ns -> {verdicts['odd'][1]}",
+              "analytic ramp gives bin k the phase -2*pi*k/ns for even and odd lengths",
+              f"analytic phase ramp is wrong for {' and '.join(bad)} lengths: bin k gets {verdicts[bad[0]][1] if bad else ''} (N = ns) instead of -2*pi*k*s/ns "
+              "(for odd ns the last rfft bin is not Nyquist): every shift on such an axis is scaled", key="phase")
+
+
 def run(ctx):
-    d1_no_mutation(ctx)
-    d2_restore(ctx)
-    d3_broadcast(ctx)
-    d4_sign(ctx)
+    ctx.run(d1_no_mutation)
+    ctx.run(d2_restore)
+    ctx.run(d3_broadcast)
+    ctx.run(d4_sign)
